@@ -546,13 +546,18 @@ def main():
     old_default = ('Noneiftop_level_world.exports.len()==1=>{top_level_world.exports.values().next().unwrap()}'
                    'Noneiftop_level_world.exports.len()>1=>{bail!("witpackagehasmultipleworlds,pleasespecifyone'
                    'withthe--worldflag")}None=>{bail!("witpackagedidnotcontainaworld")}')
-    new_default = ('None=>{letmutworlds=top_level_world.exports.values().filter(|item|matches!(item,ItemKind::Type('
-                   'wac_types::Type::World(_))));match(worlds.next(),worlds.next()){(Some(world),None)=>world,'
-                   '(Some(_),Some(_))=>{bail!("witpackagehasmultipleworlds,pleasespecifyonewiththe--worldflag")}'
+    new_default = ('None=>{letmutworlds=top_level_world.exports.values().filter(|item|is_world_definition(types,item));'
+                   'match(worlds.next(),worlds.next()){(Some(world),None)=>world,(Some(_),Some(_))=>{bail!('
+                   '"witpackagehasmultipleworlds,pleasespecifyonewiththe--worldflag")}'
                    '(None,_)=>bail!("witpackagedidnotcontainaworld"),}}')
+    helper = ('matchitem{ItemKind::Type(wac_types::Type::World(id))=>matches!(types[*id].exports.values().next(),'
+              'Some(ItemKind::Component(_))),_=>false,}')
     if rest_arms == old_default:
         counts_all = True
     elif rest_arms == new_default:
+        hb = nows(fn_body(trel, srcs[structs["TargetsCommand"][0]], r"fn\s+is_world_definition\s*\("))
+        if hb != helper:
+            raise Bad(f"{trel}: is_world_definition does not have the expected body: {hb}")
         counts_all = False
     else:
         raise Bad(f"{trel}: the default-world arms of get_wit_world have an unknown shape: {rest_arms}")
